@@ -30,6 +30,7 @@ func runSpec(spec Spec) (res Result, timing [3]time.Duration) {
 			e.stat("op.skipped_bad_relayer")
 			continue
 		}
+		e.curOp = i
 		switch op.K {
 		case "send":
 			e.opSend(op)
